@@ -149,11 +149,19 @@ func (p *exeParser) readField() (f *Field, err error) {
 	var b byte
 	var token string
 
-	token, err = p.readToken()
+	// Note where the field starts before reading the token. Reading a token
+	// looks one byte ahead and if that byte is a newline the position is
+	// already on the next line.
+	_, err = p.skipSpace()
+	line := p.line
+	col := p.col
+	if err == nil {
+		token, err = p.readToken()
+	}
 	if len(token) == 0 && err == nil {
 		err = parseError(p.line, p.col, "a field name can not be blank")
 	}
-	f = &Field{SelBase: SelBase{line: p.line, col: p.col - len(token)}}
+	f = &Field{SelBase: SelBase{line: line, col: col}}
 	if err == nil {
 		b, err = p.skipSpace()
 	}
